@@ -25,7 +25,7 @@ def C03_removeConnectionLocked : List String := ["Stream.Close", "unindexLocked"
 def C03_unindexLocked : List String := ["delete"]
 def ComputeResponse : List String := ["hmac.New", "h.Write", "hex.EncodeToString", "h.Sum"]
 def GenerateChallenge : List String := ["rand.Read", "hex.EncodeToString"]
-def HandleHandshake : List String := ["ipManager.IsAllowed", "bruteForceProtector.IsBanned", "rateLimiter.AllowIP", "handleFirstConnection", "cloudControl.GetClientConfig", "bruteForceProtector.RecordFailure", "handleChallengePhase1", "handleChallengePhase2"]
+def HandleHandshake : List String := ["ipManager.IsAllowed", "bruteForceProtector.IsBanned", "rateLimiter.AllowIP", "handleFirstConnection", "cloudControl.GetClientConfig", "bruteForceProtector.RecordFailure", "config.IsExpired", "handleChallengePhase1", "handleChallengePhase2"]
 def RecordFailure : List String := ["cleanupOldFailures", "banIP", "banIP"]
 def VerifyResponse : List String := ["Decrypt", "ComputeResponse", "hmac.Equal"]
 def handleChallengePhase1 : List String := ["secretKeyMgr.GenerateChallenge", "conn.SetPendingChallenge"]
@@ -35,13 +35,13 @@ end Skel
 
 namespace Cond
 def DropStaleIndex : List String := ["conn == nil", "indexed == conn && clientID != conn.ClientID"]
-def HandleHandshake : List String := ["remoteAddr != nil", "h.ipManager != nil", "allowed, reason := h.ipManager.IsAllowed(ip); !allowed", "h.bruteForceProtector != nil", "banned, reason := h.bruteForceProtector.IsBanned(ip); banned", "req.ClientID == 0 && h.rateLimiter != nil", "!h.rateLimiter.AllowIP(ip)", "isFirstConnection := req.ClientID == 0 && (req.Token == \"new-client\" || strings.HasPrefix(req.Token, \"anonymous:\"))", "isFirstConnection", "err != nil || config == nil", "h.bruteForceProtector != nil", "req.ChallengeResponse == \"\""]
+def HandleHandshake : List String := ["remoteAddr != nil", "h.ipManager != nil", "allowed, reason := h.ipManager.IsAllowed(ip); !allowed", "h.bruteForceProtector != nil", "banned, reason := h.bruteForceProtector.IsBanned(ip); banned", "req.ClientID == 0 && h.rateLimiter != nil", "!h.rateLimiter.AllowIP(ip)", "isFirstConnection := req.ClientID == 0 && (req.Token == \"new-client\" || strings.HasPrefix(req.Token, \"anonymous:\"))", "isFirstConnection", "err != nil || config == nil", "h.bruteForceProtector != nil", "config.IsExpired()", "req.ChallengeResponse == \"\""]
 def IsAllowed : List String := ["m.isInList(ip, m.whitelist)", "record := m.findInList(ip, m.blacklist); record != nil", "record.isExpired()"]
 def IsBanned : List String := ["!exists", "record.isExpired()"]
 def RecordFailure : List String := ["!exists", "totalCount >= p.config.PermanentBanAt", "recentFailures >= p.config.MaxFailures"]
 def UpdateAuth : List String := ["!exists"]
 def VerifyResponse : List String := ["err != nil"]
-def handleChallengePhase1 : List String := ["h.secretKeyMgr == nil", "config.IsExpired()", "config.SecretKeyEncrypted == \"\"", "err != nil"]
+def handleChallengePhase1 : List String := ["h.secretKeyMgr == nil", "config.SecretKeyEncrypted == \"\"", "err != nil"]
 def handleChallengePhase2 : List String := ["challenge == \"\"", "h.bruteForceProtector != nil", "!h.secretKeyMgr.VerifyResponse(config.SecretKeyEncrypted, challenge, req.ChallengeResponse)", "h.bruteForceProtector != nil", "h.bruteForceProtector != nil"]
 def handleHandshake : List String := ["s.authHandler == nil", "len(connPacket.Packet.Payload) > 0", "err := json.Unmarshal(connPacket.Packet.Payload, req); err != nil", "isControlConnection := req.ConnectionType != \"tunnel\"", "req.ConnectionType == \"\"", "isControlConnection", "existingConn != nil", "conn == nil", "enforcedProtocol == \"\"", "conn.RawConn != nil", "existingConn != nil", "conn == nil", "enforcedProtocol == \"\"", "conn.RawConn != nil", "err != nil", "concreteConn, ok := clientConn.(*ControlConnection); ok", "err := s.sendHandshakeResponse(clientConn, resp); err != nil", "isControlConnection && clientConn.IsAuthenticated() && clientConn.GetClientID() > 0", "oldConn != nil && oldConn.GetConnID() != clientConn.GetConnID()", "s.connStateStore != nil", "err := s.connStateStore.UnregisterConnection(s.Ctx(), oldConn.GetConnID()); err != nil", "concreteConn, ok := clientConn.(*ControlConnection); ok", "err := s.clientRegistry.UpdateAuth(concreteConn.ConnID, clientConn.GetClientID(), concreteConn.UserID); err != nil", "s.connStateStore != nil", "conn != nil && conn.Protocol != \"\"", "err := s.connStateStore.RegisterConnection(s.Ctx(), stateInfo); err != nil", "conn != nil && conn.Stream != nil", "handshakeHandler, ok := reader.(interface{ OnHandshakeComplete(clientID int64) }); ok", "isControlConnection && clientConn.IsAuthenticated() && clientConn.GetClientID() > 0"]
 def removeConnectionLocked : List String := ["conn == nil", "conn.Stream != nil"]
